@@ -42,6 +42,7 @@ import random
 import numpy as np
 
 from .. import heapgen as hg
+from .. import apiy
 from ..heapgen import World, tok_v3, tok_gro
 
 RULE = ("operation sequences (<= 40 quick / <= 200 thorough) over {copy (incl. Alignment start/end), deep_copy, "
@@ -58,6 +59,11 @@ RULE += (" Grammar 2 (all generated cases): + named attribute set/get on views /
          "of molecules; the ragged owner stays in the grammar), a + b, 0 + a; one 'routes' case per run compares "
          "the routing table name by name.")
 
+RULE += (" Grammar 3 (additional cases; harness/apiy.py): + write_gro (registered / unknown extensions; bytes and "
+         "re-read records against an independent rendering), update_from_molecule_top (own / same-length / any "
+         "topology), setattr / getattr by name on Molecules (all routes of Molecule.__setattr__), mol.index(x), "
+         "hash(view); one 'molroutes' case per run compares the routing table of Molecule and dir() name by name.")
+
 PRODUCERS = ("copy", "deepcopy", "molwith", "getatom", "iteratom", "getres")
 
 
@@ -73,6 +79,15 @@ def generate(ctx):
                "labels": "any" if rng.random() < 0.12 else "deep",
                "setup": rng.getrandbits(40),
                "steps": [rng.getrandbits(40) for _ in range(nops)]}
+    # grammar 3 (work package WPI): generated AFTER the grammar-2 cases, so that those stay what they were
+    yield {"kind": "molroutes"}
+    for _ in range(ctx.n(130, 900)):
+        nops = rng.randint(4, maxlen) if rng.random() < 0.8 else rng.randint(1, 6)
+        yield {"kind": "seq", "grammar": 3,
+               "stream": "exact" if rng.random() < 0.6 else "float",
+               "labels": "any" if rng.random() < 0.15 else "deep",
+               "setup": rng.getrandbits(40),
+               "steps": [rng.getrandbits(40) for _ in range(nops)]}
 
 
 # ----------------------------------------------------------------------------- setup
@@ -84,9 +99,19 @@ def setup_world(ctx, case):
     w = World(ctx, stream)
     d = os.path.join(ctx.scratch, "c18-%d-%d" % (case["setup"], ctx.evaluations))
     os.makedirs(d, exist_ok=True)
+    w.dir = d
     nsp = rng.choice([1, 1, 2, 3])
+    g3 = case.get("grammar", 1) >= 3
+    if g3:
+        nsp = rng.choice([1, 2, 2, 3])
+    n0 = None
     for s in range(nsp):
-        sp = hg.gen_species(rng, hg.LETTERS[s], 1, 8)
+        if g3 and s >= 1 and rng.random() < 0.65:
+            # a twin species: as many atoms as the first one, other names (update_from_molecule_top then renames)
+            sp = hg.gen_species(rng, hg.LETTERS[s], n0, n0)
+        else:
+            sp = hg.gen_species(rng, hg.LETTERS[s], 1, 8)
+        n0 = n0 or len(sp["atoms"])
         fitp = os.path.join(d, f"s{s}.itp")
         hg.write_itp(fitp, sp)
         with_vel = rng.random() < 0.5
@@ -193,6 +218,8 @@ def choose_op(w, rng, i, mode, grammar=1):
             for name, wt in (("setn", 4.0), ("getn", 4.0), ("eq", 1.2), ("add", 0.4), ("radd0", 0.2),
                              ("remove", 0.2), ("mkatom", 1.5)):
                 add(name, wt)
+    if grammar >= 3:
+        apiy.add_ops(add, k, crowded)
     tot = sum(wt for _, wt in ops)
     x = rng.uniform(0, tot)
     for name, wt in ops:
@@ -366,6 +393,16 @@ def do_step_x(ctx, w, rng, mode, op, i, rec):
         if st == "ok":
             w.extra[-1] = to_pyval(ret[0])
             ctx.count(f"eq:{kind}:{w.meta[j]['kind']}:{ret[0]}")
+            # `!=` is the negation of `==` for every pair of handles (`__ne__` of AtomGro / Residue / Molecule)
+            try:
+                with hg.warnings.catch_warnings():
+                    hg.warnings.simplefilter("ignore")
+                    ne = bool(o != p)
+                ctx.oracle_ok(1)
+                if ne == bool(ret[0]):
+                    ctx.oracle_fail("c18:eq:ne-is-not-the-negation-of-eq", w.case, {"op": w.desc[-1]})
+            except Exception:   # noqa: BLE001
+                ctx.count("ne:raised")
     elif op == "mkatom":
         if kind == "atom" and rng.random() < 0.85:
             j = partner(lambda j: w.meta[j]["kind"] == "agro", 0.25)
@@ -508,11 +545,21 @@ def do_step(ctx, w, rng, mode, grammar=1):
             o, m = w.env[i], w.meta[i]
             kind = m["kind"]
             ctx.count("flow:" + flow)
+    if grammar >= 3 and rng.random() < 0.30:
+        pick = apiy.aim(w, rng)
+        if pick:
+            i, op = pick
+            o, m = w.env[i], w.meta[i]
+            kind = m["kind"]
+            ctx.count("flow3:" + op)
     rec = {"op": op, "i": i, "kind": kind, "g": m["g"],
            "t": m["t"] if kind in ("mol", "atom") else None, "alloc_only": op in PRODUCERS}
     n = natoms(o)
     if op in ("setn", "getn", "eq", "mkatom", "remove", "add", "radd0"):
         return do_step_x(ctx, w, rng, mode, op, i, rec)
+    if op in apiy.Y_OPS:
+        import sys
+        return apiy.do_step_y(ctx, sys.modules[__name__], w, rng, mode, op, i, rec)
     if op == "molwith" and any(len(r) == 0 for r in o.residues):
         # `System.__getitem__/__iter__` compute the stride from `len(stored.resnames)`, which raises once
         # `remove_atom` emptied a residue of the stored molecule (IndexError; ValueError through `last()`):
@@ -932,6 +979,8 @@ def expected_from_tag(tag, name):
 
 def values_cb(ctx, case, tol):
     def values(k, cur, world, mst):
+        if apiy.extra_y(ctx, case, k, cur, world, mst, tol, None):
+            return
         # a successful `getattrn` / `eq` answers with the value it read
         if world.ops[k].split(" ", 1)[0] in ("getattrn", "eq") and mst == "ok":
             if cur.tok() != "V":
@@ -1021,6 +1070,8 @@ def evaluate_routes(ctx, case):
 def evaluate(ctx, case):
     if case.get("kind") == "routes":
         return evaluate_routes(ctx, case)
+    if case.get("kind") == "molroutes":
+        return apiy.evaluate_mol_routes(ctx, case)
     w = setup_world(ctx, case)
     w.case = case
     grammar = case.get("grammar", 1)
@@ -1063,6 +1114,6 @@ def evaluate(ctx, case):
             ctx.disagree(case, "heapseq", "ok", status)
             return
         hg.compare_with_model(ctx, case, w, toks, tol, "C18 heap model", extra_cb=values_cb(ctx, case, tol))
-    ctx.model.ask("heapseq", w.request(), cb, case)
+    ctx.model.ask("heapseqy" if grammar >= 3 else "heapseq", w.request(), cb, case)
     if len(ctx.model.queue) >= 25:          # keep the worlds (held by the callbacks) short-lived
         ctx.model.flush(ctx)
